@@ -12,7 +12,7 @@ PROPERTY = "C14"
 def generate(seed, tier="quick"):
     rnd = tape.sub(seed, PROPERTY, "gen")
     max_n = 120 if tier == "quick" else 300
-    cfg = common.base_config(seed, PROPERTY, rnd, n_libs=1, n_data=2, profile=rnd.choice(["flat", "weak", "informative", "informative", "spike"]))
+    cfg = common.base_config(seed, PROPERTY, rnd, tier=tier, n_libs=1, n_data=2, profile=rnd.choice(["flat", "weak", "informative", "informative", "spike"]))
     lib = cfg["libraries"][0]
     lib["n"] = rnd.choice([1, 2, 3, 5, 8, 13, 21, 34, 55, 89, rnd.randint(1, max_n), rnd.randint(1, max_n)])
     lib["duplicates"] = [d for d in lib["duplicates"] if d[0] < lib["n"] and d[1] < lib["n"]]
